@@ -109,8 +109,10 @@ def run(tier, seed):
             if d.get("obs_class") == "build-failed":
                 unbuildable.append(key)
                 continue
-            rep.disagree({"cell": r["cell"], "corpus": r["pid"], "sub_obs_class": d.get("obs_class"),
-                          "sub": {k: d[k] for k in sorted(d) if k != "obs_class"}},
+            # a few fields of the corpus' own (spec-side) descriptor are lifted so that known-finding matchers can be narrow
+            lifted = {"sub_" + k: d[k] for k in ("type", "has_keywords", "spec_outcome", "part", "expect") if k in d}
+            rep.disagree(dict({"cell": r["cell"], "corpus": r["pid"], "sub_obs_class": d.get("obs_class"),
+                               "sub": {k: d[k] for k in sorted(d) if k != "obs_class"}}, **lifted),
                          "differs-from-default-configuration", {"cell": r["cell"], "corpus": r["pid"], "violation": v})
     ran = [k for k in table if k not in unbuildable and table[k]["rc"] in (0, 1)]
     if not ran:
